@@ -389,6 +389,31 @@ func addSync(m map[string]Intrinsic) {
 		}
 		return nil
 	}
+	// vInterposeAtomics(on): atomic operations are scheduling points for the interposed operation too
+	m["vocab.vInterposeAtomics"] = func(vm *VM, fn *ssa.Function, args []Value) Value {
+		vm.P.interposeAtomics = args[0].(*Term).BoolVal()
+		return nil
+	}
+	m["vocab.vConcurrent"] = func(vm *VM, fn *ssa.Function, args []Value) Value {
+		f, _ := args[0].(*FuncV)
+		pg := &pendingGo{fn: f, label: vm.where(), tid: vm.newTid()}
+		if rs := vm.P.race; rs != nil && rs.on {
+			my := rs.clockOf(vm.P.curThread)
+			pg.vc = my.copy()
+			pg.vc[pg.tid] = 1
+			my[vm.P.curThread]++
+		}
+		vm.P.conc = &coro{pg: pg, resume: make(chan bool), yield: make(chan coroMsg)}
+		vm.P.concBudget = constInt(vm, args[1], "vConcurrent switches")
+		vm.P.concDone = false
+		return nil
+	}
+	m["vocab.vJoin"] = func(vm *VM, fn *ssa.Function, args []Value) Value {
+		vm.concJoin()
+		started := vm.P.conc != nil && vm.P.conc.started
+		vm.P.conc = nil
+		return mkBool(started)
+	}
 	m["vocab.vInterposed"] = func(vm *VM, fn *ssa.Function, args []Value) Value {
 		return intV(len(vm.P.interposedAt))
 	}
@@ -471,6 +496,38 @@ func addSync(m map[string]Intrinsic) {
 			}
 			return tFalse
 		}
+	}
+	// atomic.Pointer[T] (generic: looked up through the method's origin)
+	m["(*sync/atomic.Pointer[T]).Load"] = func(vm *VM, fn *ssa.Function, args []Value) Value {
+		vm.schedPoint("atomic")
+		v := vm.loadAtomic(lastField(vm, args[0].(PtrV)))
+		if p, ok := v.(PtrV); ok {
+			return p
+		}
+		return PtrV{}
+	}
+	m["(*sync/atomic.Pointer[T]).Store"] = func(vm *VM, fn *ssa.Function, args []Value) Value {
+		vm.schedPoint("atomic")
+		vm.storeAtomic(lastField(vm, args[0].(PtrV)), args[1])
+		return nil
+	}
+	m["(*sync/atomic.Pointer[T]).Swap"] = func(vm *VM, fn *ssa.Function, args []Value) Value {
+		vm.schedPoint("atomic")
+		p := lastField(vm, args[0].(PtrV))
+		old, _ := vm.loadAtomic(p).(PtrV)
+		vm.storeAtomic(p, args[1])
+		return old
+	}
+	m["(*sync/atomic.Pointer[T]).CompareAndSwap"] = func(vm *VM, fn *ssa.Function, args []Value) Value {
+		vm.schedPoint("atomic")
+		p := lastField(vm, args[0].(PtrV))
+		old, _ := vm.loadAtomic(p).(PtrV)
+		want := args[1].(PtrV)
+		if old.Obj == want.Obj && fmt.Sprint(old.Path) == fmt.Sprint(want.Path) {
+			vm.storeAtomic(p, args[2])
+			return tTrue
+		}
+		return tFalse
 	}
 	m["(*sync/atomic.Bool).Load"] = func(vm *VM, fn *ssa.Function, args []Value) Value {
 		vm.schedPoint("atomic")
